@@ -839,6 +839,8 @@ NAMESETS = {
         'sv': ['s', 's1'],
         'v': ['v', 'v1'],
     },
+    # one algorithm name used by every package (only for partitions that put each algorithm in its own package)
+    'same-alg': {'alg': ['cal', 'cal', 'cal', 'cal']},
 }
 
 
